@@ -1296,6 +1296,9 @@ impl<'a, const C: usize, const R: usize, T: 'a + Copy + std::fmt::Debug> Layout<
         if let Some(Some((coord, delay, action))) = self.action_queue.pop_front() {
             // If there's anything in the action queue, don't process anything else yet - execute
             // everything. Otherwise an action may never be released.
+            // Time still passes for the key and input histories (switch key-timing).
+            self.historical_keys.tick_hist();
+            self.historical_inputs.tick_hist();
             return self.do_action(
                 action,
                 coord,
